@@ -97,6 +97,12 @@ def build(quiet=True) -> BuildInfo:
         if rc3 != 0:
             info.gen_failed.add('Gen/InOrOutSet.v')
             info.translator_msg += '\n' + (out3 + err3).strip()
+        # fourth translator: the dict-merging helpers of internal_util.py -> Gen/InternalUtil.v (tie: Sched/MergeTie.v)
+        rc4, out4, err4 = sh([PY, os.path.join(VERIF, 'harness', 'py2coq_util.py'), REPO, os.path.join(COQ, 'Gen')], timeout=60)
+        info.translator4_ok = rc4 == 0
+        if rc4 != 0:
+            info.gen_failed.add('Gen/InternalUtil.v')
+            info.translator_msg += '\n' + (out4 + err4).strip()
         if not os.path.exists(os.path.join(COQ, 'Makefile')) or \
                 os.path.getmtime(os.path.join(COQ, 'Makefile')) < os.path.getmtime(os.path.join(COQ, '_CoqProject')):
             sh('coq_makefile -f _CoqProject -o Makefile', cwd=COQ, timeout=60)
